@@ -401,6 +401,14 @@ class Program:
         except AnalysisError:
             return None
 
+    def new_helper_names(self):
+        """simple names of repo functions that the reference tree does not have (they are inlined by the term builder)"""
+        if getattr(self, '_new_helpers', None) is None:
+            from .terms import known_funcs
+            known = known_funcs()
+            self._new_helpers = frozenset(f.name for f in self.all_funcs() if f.qual not in known)
+        return self._new_helpers
+
     def nested_func(self, outer, node):
         key = (outer.qual, node.lineno, node.name)
         if key not in self._nested:
